@@ -140,6 +140,9 @@ func (n Number) addQuantum(i uint64) Number {
 // and decimal.
 func (n Number) Less(m Number) bool {
 	switch {
+	case n.Value == 0 && m.Value == 0:
+		// Zero is zero, whatever its sign.
+		return false
 	case n.Negative && !m.Negative:
 		return true
 	case !n.Negative && m.Negative:
